@@ -1,7 +1,11 @@
 /-
-C06 — lemmas about the scanners of the header-style parser model.
+C06 — `tracking_sound`: the line-tracking parser on every well-formed document (K3 hypothesis on names);
+lemmas about the scanners of the header-style parser model.
 -/
 import DebInspector.Props.C06
+import DebInspector.Proofs.SplitJoin
+import DebInspector.Proofs.Deb822
+import DebInspector.Proofs.VersionPrint
 
 namespace Props.C06
 open Py Model.Email
@@ -71,5 +75,652 @@ example : (model ⟨[], true, "A: x: y\n c\n\n\n\n \nB2: .d\n".toList⟩).tracki
     .ok [[("a".toList, ["x: y".toList, " c".toList])], [("b2".toList, [".d".toList])]] := by decide +kernel
 example : (model ⟨[], true, "X_Foo: bar\n".toList⟩).tracking = .ok [[("unknown".toList, ["X_Foo: bar".toList])]] := by
   decide +kernel
+
+end Props.C06
+
+/-! ## the line-tracking parser on well-formed documents -/
+
+namespace Props.C06
+open Py Model.Deb822
+
+/-! ### the source lines of a rendered document -/
+
+def NoT (l : Str) : Prop := '\n' ∉ l ∧ '\r' ∉ l
+
+theorem splitLinesAsciiAux_prefix (l rest cur : Str) (cr : Bool) (h : NoT l) (hne : l ≠ []) :
+    splitLinesAsciiAux (l ++ rest) cur cr = splitLinesAsciiAux rest (l.reverse ++ cur) false := by
+  induction l generalizing cur cr with
+  | nil => exact absurd rfl hne
+  | cons c cs ih =>
+    have hn : c ≠ '\n' := fun e => h.1 (by simp [e])
+    have hr : c ≠ '\r' := fun e => h.2 (by simp [e])
+    have hcs : NoT cs := ⟨fun m => h.1 (List.mem_cons_of_mem _ m), fun m => h.2 (List.mem_cons_of_mem _ m)⟩
+    cases cs with
+    | nil => simp [splitLinesAsciiAux, hn, hr]
+    | cons d ds =>
+      have := ih (c :: cur) false hcs (by simp)
+      have step : splitLinesAsciiAux (c :: (d :: ds ++ rest)) cur cr = splitLinesAsciiAux (d :: ds ++ rest) (c :: cur) false := by
+        rw [splitLinesAsciiAux]; simp [hn, hr]
+      rw [List.cons_append, step, this]; simp
+
+theorem splitLinesAscii_line (l rest : Str) (h : NoT l) :
+    splitLinesAscii (l ++ '\n' :: rest) = l :: splitLinesAscii rest := by
+  unfold splitLinesAscii
+  have hnl : ('\n' : Char) ≠ '\r' := by decide
+  cases l with
+  | nil => simp [splitLinesAsciiAux, hnl]
+  | cons c cs =>
+    rw [splitLinesAsciiAux_prefix (c :: cs) _ [] false h (by simp)]
+    simp [splitLinesAsciiAux, hnl]
+
+theorem splitLinesAscii_last (l : Str) (h : NoT l) (hne : l ≠ []) : splitLinesAscii l = [l] := by
+  unfold splitLinesAscii
+  have := splitLinesAsciiAux_prefix l [] [] false h hne
+  simp only [List.append_nil] at this
+  rw [this]; simp [splitLinesAsciiAux, hne]
+
+theorem splitLinesAscii_joinNl_nl (l : Str) (ls : List Str) (rest : Str) (h : ∀ x ∈ l :: ls, NoT x) :
+    splitLinesAscii (joinNl (l :: ls) ++ '\n' :: rest) = (l :: ls) ++ splitLinesAscii rest := by
+  induction ls generalizing l with
+  | nil => simpa [joinNl] using splitLinesAscii_line l rest (h l (by simp))
+  | cons m ms ih =>
+    have e : joinNl (l :: m :: ms) ++ '\n' :: rest = l ++ '\n' :: (joinNl (m :: ms) ++ '\n' :: rest) := by
+      simp [joinNl]
+    rw [e, splitLinesAscii_line l _ (h l (by simp)), ih m (fun x hx => h x (by simp [hx]))]
+    simp
+
+theorem splitLinesAscii_joinNl (l : Str) (ls : List Str) (h : ∀ x ∈ l :: ls, NoT x)
+    (hlast : (l :: ls).getLast (by simp) ≠ []) : splitLinesAscii (joinNl (l :: ls)) = l :: ls := by
+  induction ls generalizing l with
+  | nil => simpa [joinNl] using splitLinesAscii_last l (h l (by simp)) (by simpa using hlast)
+  | cons m ms ih =>
+    have e : joinNl (l :: m :: ms) = l ++ '\n' :: joinNl (m :: ms) := by simp [joinNl]
+    rw [e, splitLinesAscii_line l _ (h l (by simp)), ih m (fun x hx => h x (by simp [hx])) (by simpa using hlast)]
+
+theorem splitLinesAscii_seps (sep : List Str) (rest : Str) (h : ∀ x ∈ sep, NoT x) :
+    splitLinesAscii ((sep.flatMap fun l => l ++ ['\n']) ++ rest) = sep ++ splitLinesAscii rest := by
+  induction sep with
+  | nil => rfl
+  | cons s ss ih =>
+    have e : ((s :: ss).flatMap fun l => l ++ ['\n']) ++ rest = s ++ '\n' :: ((ss.flatMap fun l => l ++ ['\n']) ++ rest) := by
+      simp [List.flatMap_cons]
+    rw [e, splitLinesAscii_line s _ (h s (by simp)), ih (fun x hx => h x (by simp [hx]))]
+    simp
+
+
+def paraLines (p : Para) : List Str := p.fields.flatMap fieldLines
+
+def docLines : List Para → List Str
+  | [] => []
+  | [p] => paraLines p
+  | p :: q :: rest => paraLines p ++ [] :: p.sep ++ docLines (q :: rest)
+
+theorem renderPara_eq (p : Para) : renderPara p = joinNl (paraLines p) := rfl
+
+theorem lines_render (paras : List Para) (fin : Bool)
+    (hp : ∀ p ∈ paras, paraLines p ≠ [] ∧ (∀ l ∈ paraLines p, NoT l ∧ l ≠ []) ∧ ∀ l ∈ p.sep, NoT l) :
+    splitLinesAscii (render paras fin) = docLines paras := by
+  induction paras with
+  | nil => rfl
+  | cons p rest ih =>
+    obtain ⟨hne, hl, hs⟩ := hp p (by simp)
+    cases hpl : paraLines p with
+    | nil => exact absurd hpl hne
+    | cons l ls =>
+      have hl' : ∀ x ∈ l :: ls, NoT x := fun x hx => (hl x (by rw [hpl]; exact hx)).1
+      cases rest with
+      | nil =>
+        simp only [render, docLines, renderPara_eq, hpl]
+        cases fin with
+        | true =>
+          simp only [if_true]
+          have := splitLinesAscii_joinNl_nl l ls [] hl'
+          simpa [splitLinesAscii, splitLinesAsciiAux] using this
+        | false =>
+          simp only [Bool.false_eq_true, if_false, List.append_nil]
+          apply splitLinesAscii_joinNl l ls hl'
+          have hm : (l :: ls).getLast (by simp) ∈ paraLines p := by rw [hpl]; exact List.getLast_mem _
+          exact (hl _ hm).2
+      | cons q rest' =>
+        have ih' := ih (fun x hx => hp x (List.mem_cons_of_mem _ hx))
+        have e : render (p :: q :: rest') fin =
+            joinNl (l :: ls) ++ '\n' :: ([] ++ '\n' :: ((p.sep.flatMap fun l => l ++ ['\n']) ++ render (q :: rest') fin)) := by
+          simp [render, renderPara_eq, hpl, List.append_assoc]
+        rw [e, splitLinesAscii_joinNl_nl l ls _ hl', splitLinesAscii_line [] _ ⟨by simp, by simp⟩,
+          splitLinesAscii_seps p.sep _ hs, ih']
+        simp [docLines, hpl]
+
+/-! ### the loop on the lines of a well-formed document -/
+
+/-- the field the loop builds from a declaration line and continuation lines, numbered from `k` -/
+def builtField (name value : Str) (conts : List Str) (k : Nat) : Fld :=
+  ⟨name, ⟨k, value⟩ :: numberFrom (k + 1) conts⟩
+
+theorem numberFrom_append (k : Nat) (a b : List Str) :
+    numberFrom k (a ++ b) = numberFrom k a ++ numberFrom (k + a.length) b := by
+  induction a generalizing k with
+  | nil => simp [numberFrom]
+  | cons x xs ih =>
+    simp only [List.cons_append, numberFrom, ih, List.length_cons]
+    rw [show k + 1 + xs.length = k + (xs.length + 1) by omega]
+
+theorem lastP_false_of {l : Str} (hne : l ≠ []) (h : lastP isSpace l = false) :
+    lastP (fun c => !isSpace c) l = true := by
+  induction l with
+  | nil => exact absurd rfl hne
+  | cons c cs ih =>
+    cases cs with
+    | nil => simpa [lastP] using h
+    | cons d ds => simpa [lastP] using ih (by simp) (by simpa [lastP] using h)
+
+theorem go_cont_step (s : List Fld × Fld) (l : NL) (rest : List NL) (hnb : isBlank l.val = false)
+    (hc : isCont l.val = true) : go (some s) (l :: rest) = go (some (addLine s ⟨l.num, rstrip l.val⟩)) rest := by
+  conv => lhs; unfold go
+  simp only [hnb, Bool.false_eq_true, if_false, hc, if_true]
+
+theorem go_decl_step_open (s : List Fld × Fld) (l : NL) (rest : List NL) (hnb : isBlank l.val = false)
+    (hc : isCont l.val = false) (hd : isDecl l.val = true) :
+    go (some s) (l :: rest) = go (some (s.1 ++ [s.2], fromLine l)) rest := by
+  conv => lhs; unfold go
+  simp only [hnb, Bool.false_eq_true, if_false, hc, hd, if_true]
+
+theorem go_decl_step_none (l : NL) (rest : List NL) (hnb : isBlank l.val = false) (hd : isDecl l.val = true) :
+    go none (l :: rest) = go (some ([], fromLine l)) rest := by
+  conv => lhs; unfold go
+  simp only [hnb, Bool.false_eq_true, if_false, hd, if_true]
+
+theorem go_blank_none (l : NL) (rest : List NL) (hb : isBlank l.val = true) : go none (l :: rest) = go none rest := by
+  conv => lhs; unfold go
+  simp only [hb, if_true, flush, List.nil_append]
+
+/-- a blank line closes the paragraph when the next line is blank or a declaration, or there is none -/
+theorem go_blank_break (s : List Fld × Fld) (l : NL) (rest : List NL) (hb : isBlank l.val = true)
+    (hn : ∀ n ∈ rest.head?, isDecl n.val = true ∨ isBlank n.val = true) :
+    go (some s) (l :: rest) = flush (some s) ++ go none rest := by
+  conv => lhs; unfold go
+  simp only [hb, if_true]
+  cases rest with
+  | nil => rfl
+  | cons n tl =>
+    simp only
+    have := hn n (by simp)
+    rcases this with h | h <;> simp [h]
+
+/-- continuation lines are appended to the open field -/
+theorem go_conts (done : List Fld) (cur : Fld) (cs : List Str) (k : Nat) (rest : List NL)
+    (hc : ∀ c ∈ cs, isCont c = true ∧ lastP isSpace c = false) :
+    go (some (done, cur)) (numberFrom k cs ++ rest) =
+      go (some (done, { cur with lines := cur.lines ++ numberFrom k cs })) rest := by
+  induction cs generalizing cur k with
+  | nil => simp [numberFrom]
+  | cons c cs ih =>
+    obtain ⟨hcont, hlast⟩ := hc c (by simp)
+    have hnb : isBlank c = false := Proofs.Deb822.cont_not_blank c hcont
+    have hne : c ≠ [] := by intro e; subst e; simp [isCont, headP] at hcont
+    have hr : rstrip c = c := rstrip_of_last c (lastP_false_of hne hlast)
+    simp only [numberFrom, List.cons_append]
+    rw [go_cont_step _ _ _ hnb hcont]
+    simp only [hr, addLine]
+    rw [ih _ _ (fun x hx => hc x (by simp [hx]))]
+    simp [List.append_assoc]
+
+
+/-! ### fields, paragraphs, documents -/
+
+def declLine (f : Field) : Str := f.name ++ ':' :: f.sp ++ f.value
+
+theorem fieldLines_eq (f : Field) : fieldLines f = declLine f :: f.conts := rfl
+
+/-- what the loop needs to know about a well-formed field -/
+structure FieldFacts (f : Field) : Prop where
+  decl : isDecl (declLine f) = true
+  notBlank : isBlank (declLine f) = false
+  notCont : isCont (declLine f) = false
+  fromLine : ∀ k, Model.Deb822.fromLine ⟨k, declLine f⟩ = ⟨lowerAscii f.name, [⟨k, f.value⟩]⟩
+  conts : ∀ c ∈ f.conts, isCont c = true ∧ lastP isSpace c = false
+  valueBlank : isBlank f.value = f.value.isEmpty
+
+def expField (f : Field) : Str × List Str :=
+  (lowerAscii f.name, if f.value.isEmpty && f.conts.isEmpty then [] else f.value :: f.conts)
+
+def built (f : Field) (k : Nat) : Fld := ⟨lowerAscii f.name, ⟨k, f.value⟩ :: numberFrom (k + 1) f.conts⟩
+
+def obsFld (f : Fld) : Str × List Str := (f.name, f.lines.map (·.val))
+
+theorem numberFrom_vals (k : Nat) (ls : List Str) : (numberFrom k ls).map (·.val) = ls := by
+  induction ls generalizing k with
+  | nil => rfl
+  | cons l ls ih => simp [numberFrom, ih]
+
+theorem rstripLines_nonblank_last (ls : List NL) (l : NL) (h : isBlank l.val = false) :
+    rstripLines (ls ++ [l]) = ls ++ [l] := by
+  induction ls with
+  | nil => simp [rstripLines, h]
+  | cons a as ih =>
+    simp only [List.cons_append, rstripLines, ih]
+    cases as <;> simp
+
+theorem rstripLines_all_nonblank (ls : List NL) (h : ∀ l ∈ ls, isBlank l.val = false) : rstripLines ls = ls := by
+  induction ls with
+  | nil => rfl
+  | cons a as ih =>
+    simp only [rstripLines, ih (fun l hl => h l (by simp [hl]))]
+    cases as with
+    | nil => simp [h a (by simp)]
+    | cons b bs => rfl
+
+/-- cleaning the field the loop built gives the expected field -/
+theorem clean_built (f : Field) (hf : FieldFacts f) (k : Nat) :
+    obsFld { built f k with lines := rstripLines (built f k).lines } = expField f := by
+  unfold built expField obsFld
+  simp only
+  by_cases hc : f.conts = []
+  · simp only [hc, numberFrom, List.isEmpty_nil, Bool.and_true]
+    by_cases hv : f.value.isEmpty = true
+    · have : isBlank f.value = true := by rw [hf.valueBlank]; exact hv
+      simp [rstripLines, this, hv]
+    · have hv' : f.value.isEmpty = false := by simpa using hv
+      have : isBlank f.value = false := by rw [hf.valueBlank]; exact hv'
+      simp [rstripLines, this, hv']
+  · have hce : f.conts.isEmpty = false := by cases hcs : f.conts <;> simp_all
+    simp only [hce, Bool.and_false, Bool.false_eq_true, if_false]
+    -- the last line is a continuation line, hence not blank: nothing is trimmed
+    obtain ⟨init, last, hil⟩ : ∃ init last, f.conts = init ++ [last] := by
+      rcases List.eq_nil_or_concat f.conts with h | ⟨i, l, h⟩
+      · exact absurd h hc
+      · exact ⟨i, l, by simpa using h⟩
+    have hlast : isBlank last = false :=
+      Proofs.Deb822.cont_not_blank last (hf.conts last (by rw [hil]; simp)).1
+    have e : (⟨k, f.value⟩ : NL) :: numberFrom (k + 1) f.conts =
+        ((⟨k, f.value⟩ : NL) :: numberFrom (k + 1) init) ++ [⟨k + 1 + init.length, last⟩] := by
+      rw [hil, numberFrom_append]; simp [numberFrom]
+    rw [e, rstripLines_nonblank_last _ _ hlast, ← e]
+    simp [numberFrom_vals]
+
+/-- the loop on the lines of one field, from either state -/
+theorem go_field (f : Field) (hf : FieldFacts f) (k : Nat) (st : St) (rest : List NL) :
+    go st (numberFrom k (fieldLines f) ++ rest) =
+      go (some ((match st with | none => [] | some s => s.1 ++ [s.2]), built f k)) rest := by
+  rw [fieldLines_eq]
+  simp only [numberFrom, List.cons_append]
+  have hstep : go st (⟨k, declLine f⟩ :: (numberFrom (k + 1) f.conts ++ rest)) =
+      go (some ((match st with | none => [] | some s => s.1 ++ [s.2]), Model.Deb822.fromLine ⟨k, declLine f⟩))
+        (numberFrom (k + 1) f.conts ++ rest) := by
+    cases st with
+    | none => exact go_decl_step_none _ _ hf.notBlank hf.decl
+    | some s => exact go_decl_step_open s _ _ hf.notBlank hf.notCont hf.decl
+  rw [hstep, hf.fromLine k, go_conts _ _ _ _ _ hf.conts]
+  rfl
+
+
+def splitLast (f : Fld) : List Fld → List Fld × Fld
+  | [] => ([], f)
+  | g :: gs => let r := splitLast g gs; (f :: r.1, r.2)
+
+/-- the loop state that holds exactly these fields (the last one open) -/
+def stFrom : List Fld → St
+  | [] => none
+  | f :: fs => some (splitLast f fs)
+
+theorem splitLast_join (f : Fld) (fs : List Fld) : (splitLast f fs).1 ++ [(splitLast f fs).2] = f :: fs := by
+  induction fs generalizing f with
+  | nil => rfl
+  | cons g gs ih => simp only [splitLast, List.cons_append, ih]
+
+theorem stFrom_fields (D : List Fld) : (match stFrom D with | none => [] | some s => s.1 ++ [s.2]) = D := by
+  cases D with
+  | nil => rfl
+  | cons f fs => exact splitLast_join f fs
+
+theorem splitLast_snoc (f : Fld) (fs : List Fld) (c : Fld) : splitLast f (fs ++ [c]) = (f :: fs, c) := by
+  induction fs generalizing f with
+  | nil => rfl
+  | cons g gs ih => simp only [List.cons_append, splitLast, ih]
+
+theorem stFrom_snoc (D : List Fld) (c : Fld) : stFrom (D ++ [c]) = some (D, c) := by
+  cases D with
+  | nil => rfl
+  | cons f fs => simp only [List.cons_append, stFrom, splitLast_snoc]
+
+theorem flush_stFrom (D : List Fld) : flush (stFrom D) = if D.isEmpty then [] else [clean D] := by
+  cases D with
+  | nil => rfl
+  | cons f fs => simp only [stFrom, flush, splitLast_join]; rfl
+
+def builtFields : List Field → Nat → List Fld
+  | [], _ => []
+  | f :: fs, k => built f k :: builtFields fs (k + 1 + f.conts.length)
+
+def linesCount (fs : List Field) : Nat := (fs.flatMap fieldLines).length
+
+theorem go_fields (fs : List Field) (hf : ∀ f ∈ fs, FieldFacts f) (D : List Fld) (k : Nat) (rest : List NL) :
+    go (stFrom D) (numberFrom k (fs.flatMap fieldLines) ++ rest) =
+      go (stFrom (D ++ builtFields fs k)) (rest) := by
+  induction fs generalizing D k with
+  | nil => simp [numberFrom, builtFields]
+  | cons f fs ih =>
+    simp only [List.flatMap_cons, numberFrom_append, List.append_assoc]
+    rw [go_field f (hf f (by simp)) k (stFrom D), stFrom_fields, ← stFrom_snoc]
+    have hlen : (fieldLines f).length = 1 + f.conts.length := by simp [fieldLines]; omega
+    rw [hlen, ih (fun x hx => hf x (by simp [hx]))]
+    simp only [builtFields, List.append_assoc, List.singleton_append]
+    rw [show k + (1 + f.conts.length) = k + 1 + f.conts.length by omega]
+
+theorem clean_builtFields (fs : List Field) (hf : ∀ f ∈ fs, FieldFacts f) (k : Nat) :
+    (clean (builtFields fs k)).map obsFld = fs.map expField := by
+  induction fs generalizing k with
+  | nil => rfl
+  | cons f fs ih =>
+    simp only [builtFields, clean, List.map_cons] at ih ⊢
+    rw [clean_built f (hf f (by simp)) k]
+    congr 1
+    exact ih (fun x hx => hf x (by simp [hx])) _
+
+theorem go_blank_lines (sep : List Str) (hs : ∀ l ∈ sep, isBlank l = true) (k : Nat) (rest : List NL) :
+    go none (numberFrom k sep ++ rest) = go none rest := by
+  induction sep generalizing k with
+  | nil => simp [numberFrom]
+  | cons l ls ih =>
+    simp only [numberFrom, List.cons_append]
+    rw [go_blank_none _ _ (hs l (by simp)), ih (fun x hx => hs x (by simp [hx]))]
+
+/-- what the theorem needs of a paragraph -/
+structure ParaFacts (p : Para) : Prop where
+  ne : p.fields ≠ []
+  fields : ∀ f ∈ p.fields, FieldFacts f
+  sep : ∀ l ∈ p.sep, isBlank l = true
+
+def obsOut (ps : List (List Fld)) : Groups := ps.map fun g => g.map obsFld
+
+theorem builtFields_ne_nil (fs : List Field) (k : Nat) (h : fs ≠ []) : builtFields fs k ≠ [] := by
+  cases fs with
+  | nil => exact absurd rfl h
+  | cons f fs => simp [builtFields]
+
+/-- **the loop on the lines of a well-formed document** gives one group per paragraph with exactly
+its fields -/
+theorem go_doc (paras : List Para) (hp : ∀ p ∈ paras, ParaFacts p) (k : Nat) :
+    obsOut (go none (numberFrom k (docLines paras))) = paras.map fun p => p.fields.map expField := by
+  induction paras generalizing k with
+  | nil => rfl
+  | cons p rest ih =>
+    have pf := hp p (by simp)
+    have hb := builtFields_ne_nil p.fields k pf.ne
+    have hbe : (builtFields p.fields k).isEmpty = false := by cases h : builtFields p.fields k <;> simp_all
+    cases rest with
+    | nil =>
+      simp only [docLines, paraLines]
+      have := go_fields p.fields pf.fields [] k []
+      have h0 : stFrom [] = none := rfl
+      simp only [List.append_nil, List.nil_append, h0] at this
+      rw [this]
+      simp only [go, flush_stFrom, hbe, Bool.false_eq_true, if_false, obsOut, List.map_cons, List.map_nil]
+      rw [clean_builtFields p.fields pf.fields k]
+    | cons q rest' =>
+      have ih' := ih (fun x hx => hp x (List.mem_cons_of_mem _ hx))
+      simp only [docLines, paraLines, numberFrom_append, List.append_assoc]
+      have := go_fields p.fields pf.fields [] k
+      have h0 : stFrom [] = none := rfl
+      simp only [List.nil_append, h0] at this
+      rw [this]
+      simp only [numberFrom, List.cons_append]
+      -- the empty line closes the paragraph
+      cases hst : stFrom (builtFields p.fields k) with
+      | none => cases h : builtFields p.fields k <;> simp_all [stFrom]
+      | some s =>
+        have hbreak : ∀ n ∈ (numberFrom (k + (List.flatMap fieldLines p.fields).length + 1) p.sep ++
+            numberFrom (k + (List.flatMap fieldLines p.fields).length + 1 + p.sep.length) (docLines (q :: rest'))).head?,
+            isDecl n.val = true ∨ isBlank n.val = true := by
+          intro n hn
+          cases hsep : p.sep with
+          | cons l ls =>
+            rw [hsep] at hn
+            simp only [numberFrom, List.cons_append, List.head?_cons, Option.mem_def, Option.some.injEq] at hn
+            subst hn
+            exact Or.inr (pf.sep l (by rw [hsep]; simp))
+          | nil =>
+            rw [hsep] at hn
+            have qf := hp q (by simp)
+            cases hqf : q.fields with
+            | nil => exact absurd hqf qf.ne
+            | cons f fs =>
+              have hd : ∃ tl, docLines (q :: rest') = declLine f :: tl := by
+                cases rest' with
+                | nil => exact ⟨f.conts ++ fs.flatMap fieldLines, by simp [docLines, paraLines, hqf, fieldLines_eq]⟩
+                | cons r rs =>
+                  exact ⟨f.conts ++ fs.flatMap fieldLines ++ [] :: q.sep ++ docLines (r :: rs),
+                    by simp [docLines, paraLines, hqf, fieldLines_eq]⟩
+              obtain ⟨tl, htl⟩ := hd
+              rw [htl] at hn
+              simp only [numberFrom, List.nil_append, List.head?_cons, Option.mem_def, Option.some.injEq] at hn
+              subst hn
+              exact Or.inl (qf.fields f (by rw [hqf]; simp)).decl
+        have e : k + (List.flatMap fieldLines p.fields).length + ([] :: p.sep).length =
+            k + (List.flatMap fieldLines p.fields).length + 1 + p.sep.length := by simp only [List.length_cons]; omega
+        rw [e, go_blank_break s ⟨k + (List.flatMap fieldLines p.fields).length, []⟩ _ (by rfl) hbreak, ← hst, flush_stFrom,
+          go_blank_lines p.sep pf.sep]
+        simp only [hbe, Bool.false_eq_true, if_false, obsOut, List.map_append, List.map_cons, List.map_nil,
+          List.singleton_append]
+        rw [clean_builtFields p.fields pf.fields k]
+        congr 1
+        exact ih' _
+
+
+/-! ### character classes: from the grammar to the facts the loop needs -/
+
+def nameCh (c : Char) : Bool := isAsciiAlnum c || c == '-'
+
+theorem space_not_nameCh : ∀ n ∈ Generated.spaceCodes, nameCh (Char.ofNat n) = false := by decide
+theorem extra_not_nameCh : ∀ kv ∈ Generated.azIgnoreCaseExtra, nameCh (Char.ofNat kv.1) = false := by decide
+
+theorem nameCh_not_space {c : Char} (h : nameCh c = true) : isSpace c = false := by
+  cases hs : isSpace c with
+  | false => rfl
+  | true =>
+    have hm : c.toNat ∈ Generated.spaceCodes := by simpa [isSpace] using hs
+    have := space_not_nameCh _ hm
+    rw [Char.ofNat_toNat] at this
+    rw [this] at h; cases h
+
+theorem nameCh_ne {c : Char} (h : nameCh c = true) : c ≠ ':' ∧ c ≠ '\n' ∧ c ≠ '\r' ∧ c ≠ ' ' ∧ c ≠ '\t' := by
+  refine ⟨?_, ?_, ?_, ?_, ?_⟩ <;> (intro e; subst e; revert h; decide)
+
+theorem nameCh_isNameChar {c : Char} (h : nameCh c = true) : isNameChar c = true := by
+  simp only [nameCh, isAsciiAlnum, Char.isAlphanum, Bool.or_eq_true, beq_iff_eq] at h
+  simp only [isNameChar, isLetterIC, isAsciiAlpha, isAsciiDigit, Bool.or_eq_true, decide_eq_true_eq]
+  rcases h with (h | h) | h
+  · exact Or.inl (Or.inl (Or.inl h))
+  · exact Or.inl (Or.inr h)
+  · exact Or.inr h
+
+theorem lookup_mem {β} (l : List (Nat × β)) (k : Nat) (v : β) (h : l.lookup k = some v) : (k, v) ∈ l := by
+  induction l with
+  | nil => simp [List.lookup] at h
+  | cons a as ih =>
+    obtain ⟨a1, a2⟩ := a
+    simp only [List.lookup] at h
+    by_cases e : k = a1
+    · subst e; simp at h; subst h; simp
+    · have hb : (k == a1) = false := by simpa using e
+      simp only [hb] at h
+      exact List.mem_cons_of_mem _ (ih h)
+
+theorem lowerNameChar_nameCh {c : Char} (h : nameCh c = true) : lowerNameChar c = [lowerAsciiChar c] := by
+  unfold lowerNameChar
+  cases hl : Generated.azIgnoreCaseExtra.lookup c.toNat with
+  | none => rfl
+  | some v =>
+    have := extra_not_nameCh _ (lookup_mem _ _ _ hl)
+    simp only [Char.ofNat_toNat] at this
+    rw [this] at h; cases h
+
+theorem lowerName_nameCh (n : Str) (h : ∀ c ∈ n, nameCh c = true) : lowerName n = lowerAscii n := by
+  induction n with
+  | nil => rfl
+  | cons c cs ih =>
+    simp only [lowerName, List.map_cons, List.flatten_cons, lowerNameChar_nameCh (h c (by simp)), lowerAscii] at ih ⊢
+    rw [ih (fun d hd => h d (by simp [hd]))]
+    rfl
+
+theorem dropNameChars_append (n rest : Str) (h : ∀ c ∈ n, isNameChar c = true) (hr : headP isNameChar rest = false) :
+    dropNameChars (n ++ rest) = rest := by
+  induction n with
+  | nil =>
+    cases rest with
+    | nil => rfl
+    | cons c cs => simp only [headP] at hr; simp [dropNameChars, hr]
+  | cons c cs ih =>
+    simp only [List.cons_append, dropNameChars, h c (by simp), if_true]
+    exact ih (fun d hd => h d (by simp [hd]))
+
+theorem fieldFacts (f : Field) (h : fieldOk narrowName f = true) : FieldFacts f := by
+  simp only [fieldOk, Bool.and_eq_true, Bool.not_eq_true', Bool.or_eq_true, List.all_eq_true, bne_iff_ne, ne_eq,
+    narrowName] at h
+  obtain ⟨⟨⟨⟨⟨⟨⟨hhead, hall⟩, hlic⟩, hvline⟩, hvhead⟩, hconts⟩, hsp⟩, hvsp⟩ := h
+  have hnc : ∀ c ∈ f.name, nameCh c = true := by
+    intro c hc
+    have := hall c hc
+    simpa [nameCh] using this
+  obtain ⟨c0, cs0, hn0⟩ : ∃ c cs, f.name = c :: cs := by
+    cases hn : f.name with
+    | nil => rw [hn] at hhead; simp [headP] at hhead
+    | cons c cs => exact ⟨c, cs, rfl⟩
+  have hc0a : isAsciiAlpha c0 = true := by rw [hn0] at hhead; simpa [headP] using hhead
+  have hc0 : nameCh c0 = true := hnc c0 (by rw [hn0]; simp)
+  have hdl : declLine f = c0 :: (cs0 ++ ':' :: f.sp ++ f.value) := by simp [declLine, hn0]
+  have hcolon : ':' ∉ f.name := fun hm => (nameCh_ne (hnc _ hm)).1 rfl
+  have hspsp : ∀ c ∈ f.sp, isSpace c = true := by
+    intro c hc
+    rcases hsp c hc with e | e <;> (simp only [beq_iff_eq] at e; subst e; decide)
+  refine ⟨?_, ?_, ?_, ?_, ?_, ?_⟩
+  · -- a declaration line
+    have h1 : headP isLetterIC (declLine f) = true := by
+      rw [hdl]; simp [headP, isLetterIC, hc0a]
+    have h2 : dropNameChars (declLine f) = ':' :: f.sp ++ f.value := by
+      have := dropNameChars_append f.name (':' :: f.sp ++ f.value) (fun c hc => nameCh_isNameChar (hnc c hc))
+        (by have hcn : isNameChar ':' = false := by decide
+            simp [headP, hcn])
+      simpa [declLine] using this
+    unfold isDecl
+    rw [h1, h2]
+    simp [headP]
+  · rw [hdl]; simp [isBlank, nameCh_not_space hc0]
+  · rw [hdl]
+    have := nameCh_ne hc0
+    simp [isCont, headP, this.2.2.2.1, this.2.2.2.2]
+  · intro k
+    have hp := partitionChar_split ':' f.name (f.sp ++ f.value) hcolon
+    have hstripn : strip f.name = f.name := Proofs.VersionPrint.strip_id (fun c hc => nameCh_not_space (hnc c hc))
+    have hval : strip (f.sp ++ f.value) = f.value := by
+      by_cases hve : f.value = []
+      · have : f.sp = [] := by
+          have := hvsp
+          rcases this with h | h
+          · rw [hve] at h; simp at h
+          · simpa using h
+        simp [hve, this, strip, lstrip, rstrip]
+      · have hh : headP isSpace f.value = false := hvhead
+        have hl : lastP (fun c => !isSpace c) f.value = true := by
+          apply lastP_false_of hve
+          simp only [lineOk, Bool.and_eq_true, Bool.not_eq_true'] at hvline
+          exact hvline.2
+        have := strip_core f.sp f.value [] hspsp (by simp) hh hl
+        simpa using this
+    have hd : declLine f = f.name ++ ':' :: (f.sp ++ f.value) := by simp [declLine]
+    unfold Model.Deb822.fromLine
+    simp only [hd, hp, hstripn, hval, lowerName_nameCh f.name hnc]
+    have : lowerAscii f.name ≠ licence := hlic
+    simp [this]
+  · intro c hc
+    have := hconts c hc
+    simp only [lineOk, Bool.and_eq_true, Bool.not_eq_true'] at this
+    exact ⟨this.2, this.1.2⟩
+  · cases hv : f.value with
+    | nil => rfl
+    | cons c cs =>
+      rw [hv] at hvhead
+      simp only [headP] at hvhead
+      simp [isBlank, hvhead]
+
+
+theorem lineOk_NoT (l : Str) (h : lineOk l = true) : NoT l := by
+  simp only [lineOk, Bool.and_eq_true, Bool.not_eq_true'] at h
+  exact ⟨by simpa using h.1.1, by simpa using h.1.2⟩
+
+theorem fieldLines_facts (f : Field) (h : fieldOk narrowName f = true) : ∀ l ∈ fieldLines f, NoT l ∧ l ≠ [] := by
+  have hff := fieldFacts f h
+  simp only [fieldOk, Bool.and_eq_true, Bool.not_eq_true', Bool.or_eq_true, List.all_eq_true, bne_iff_ne, ne_eq,
+    narrowName] at h
+  obtain ⟨⟨⟨⟨⟨⟨⟨hhead, hall⟩, _⟩, hvline⟩, _⟩, hconts⟩, hsp⟩, _⟩ := h
+  intro l hl
+  rw [fieldLines_eq] at hl
+  rcases List.mem_cons.mp hl with rfl | hl
+  · have hv := lineOk_NoT _ hvline
+    refine ⟨⟨?_, ?_⟩, ?_⟩
+    · intro hm
+      simp only [declLine, List.mem_append, List.mem_cons] at hm
+      rcases hm with (hm | hm | hm) | hm
+      · have : nameCh '\n' = true := by have := hall _ hm; simpa [nameCh] using this
+        revert this; decide
+      · revert hm; decide
+      · rcases hsp _ hm with e | e <;> (revert e; decide)
+      · exact hv.1 hm
+    · intro hm
+      simp only [declLine, List.mem_append, List.mem_cons] at hm
+      rcases hm with (hm | hm | hm) | hm
+      · have : nameCh '\r' = true := by have := hall _ hm; simpa [nameCh] using this
+        revert this; decide
+      · revert hm; decide
+      · rcases hsp _ hm with e | e <;> (revert e; decide)
+      · exact hv.2 hm
+    · cases hn : f.name with
+      | nil => rw [hn] at hhead; simp [headP] at hhead
+      | cons c cs => simp [declLine, hn]
+  · have := hconts l hl
+    refine ⟨lineOk_NoT l this.1, ?_⟩
+    intro e; subst e
+    have := this.2
+    simp [isCont, headP] at this
+
+/-- **C06, line-tracking parser** — for every well-formed deb822 document (any number of paragraphs
+and fields, names of letters, digits and hyphens, values and continuation lines of any characters
+but line terminators, any number of empty and white-space-only separator lines, with or without a
+final newline) the model of `get_paragraphs_as_field_groups` returns the document's paragraphs in
+order, each with exactly its fields in order: names lower-cased, first-line values trimmed,
+continuation lines kept in order. -/
+theorem tracking_sound (i : Input) (h : wfWith narrowName i = true) :
+    (model i).tracking = .ok (expectedTracking i) := by
+  simp only [wfWith, Bool.and_eq_true, Bool.not_eq_true', List.all_eq_true, beq_iff_eq] at h
+  obtain ⟨⟨_, hparas⟩, htext⟩ := h
+  have hpf : ∀ p ∈ i.paras, ParaFacts p := by
+    intro p hp
+    have := hparas p hp
+    simp only [Bool.and_eq_true, Bool.not_eq_true', List.isEmpty_eq_false_iff, List.all_eq_true, Bool.or_eq_true,
+      beq_iff_eq] at this
+    refine ⟨this.1.1.1, fun f hf => fieldFacts f (this.1.1.2 f hf), ?_⟩
+    intro l hl
+    apply List.all_eq_true.mpr
+    intro c hc
+    rcases this.2 l hl c hc with e | e <;> (subst e; decide)
+  have hlines : ∀ p ∈ i.paras, paraLines p ≠ [] ∧ (∀ l ∈ paraLines p, NoT l ∧ l ≠ []) ∧ ∀ l ∈ p.sep, NoT l := by
+    intro p hp
+    have := hparas p hp
+    simp only [Bool.and_eq_true, Bool.not_eq_true', List.isEmpty_eq_false_iff, List.all_eq_true, Bool.or_eq_true,
+      beq_iff_eq] at this
+    refine ⟨?_, ?_, ?_⟩
+    · cases hf : p.fields with
+      | nil => exact absurd hf this.1.1.1
+      | cons f fs => simp [paraLines, hf, fieldLines_eq]
+    · intro l hl
+      simp only [paraLines, List.mem_flatMap] at hl
+      obtain ⟨f, hf, hlf⟩ := hl
+      exact fieldLines_facts f (this.1.1.2 f hf) l hlf
+    · intro l hl
+      constructor <;> (intro hm; rcases this.2 l hl _ hm with e | e <;> (revert e; decide))
+  have hgo := go_doc i.paras hpf 1
+  rw [← lines_render i.paras i.finalNl hlines, ← htext] at hgo
+  simp only [model]
+  congr 1
+
 
 end Props.C06
